@@ -454,3 +454,46 @@ M('c15-wsgi-extra-filtered-by-jar-names', 'C15', 'R3', RESP, "            items 
 M('c15-asgi-extra-filtered-empty-values', 'C15', 'R3', ARESP,
   "(n.encode('ascii'), v.encode('ascii')) for n, v in self._extra_headers\n",
   "(n.encode('ascii'), v.encode('ascii')) for n, v in self._extra_headers if v\n", also=('C06',))
+
+# R6, the two setter variants merged into one that stores <coercion>(value), the coercion bound when the property is created
+# (behaviour-preserving form: preserving/k1-c15-1; each mutant is that refactoring PLUS a break)
+_TWO_SETTERS = """    if transform is None:
+
+        def fset(self: Response, value: Optional[Any]) -> None:
+            if value is None:
+                try:
+                    del self._headers[normalized_name]
+                except KeyError:
+                    pass
+            else:
+                self._headers[normalized_name] = str(value)
+
+    else:
+
+        def fset(self: Response, value: Optional[Any]) -> None:
+            if value is None:
+                try:
+                    del self._headers[normalized_name]
+                except KeyError:
+                    pass
+            else:
+                self._headers[normalized_name] = transform(value)
+"""
+_ONE_SETTER = """
+    def fset(self: Response, value: Optional[Any]) -> None:
+        if value is None:
+            try:
+                del self._headers[normalized_name]
+            except KeyError:
+                pass
+        else:
+            self._headers[normalized_name] = to_header_value(value)
+"""
+M('c15-factory-merged-setter-coercion-swapped', 'C15', 'R6', HELP, _TWO_SETTERS,
+  "    to_header_value = transform if transform is None else str\n" + _ONE_SETTER)
+M('c15-factory-merged-setter-always-str', 'C15', 'R6', HELP, _TWO_SETTERS,
+  "    to_header_value = str\n" + _ONE_SETTER)
+M('c15-factory-merged-setter-wrong-polarity', 'C15', 'R6', HELP, _TWO_SETTERS,
+  "    to_header_value = str if transform is not None else transform\n" + _ONE_SETTER)
+M('c15-factory-merged-setter-and-for-or', 'C15', 'R6', HELP, _TWO_SETTERS,
+  "    to_header_value = transform and str\n" + _ONE_SETTER)
